@@ -21,9 +21,25 @@ claimed = {
    text="Proof: n == len(p) on success for the zap writers under contract, Lock/AddSync/NewMultiWriteSyncer relay and wrapping rules, multi-WriteSyncer: same bytes to every sink, minimum count, all errors folded, Sync reaches every sink (loop invariants over a ghost call log, any number of sinks and outcome vectors).",
    note=BASE_NOTE + "User sinks are arbitrary (n, err) under the encapsulation rely; mutual exclusion for all interleavings follows from the proved lock discipline only by the (unmechanised) lock-invariant meta-theorem.",
    ref="7 (C13)"),
+ "C01": dict(
+   text="Proof on the real encoder: the bytes EncodeEntry returns are obj ++ LineEnding where obj drives the structural JSON writer automaton (theory T-JSON: containers, keys, colons, commas, strings with escapes, scalar tokens; every byte < 0x20 rejected in every position) from the start state to the accepting state - one syntactically well-formed object, no raw control byte or line break - for every entry, configuration, With-context fragment and field list, any nesting depth. Carried function by function: the escaper safeAppendStringLike (both instances; loop invariant: the copied chunk is safe, the state stays inside the string; escapes two-byte, \\u00XX, \\ufffd), separator decision from the last byte, key/value transitions of all 60-odd Add*/Append* methods (each verified against the ObjectEncoder/ArrayEncoder interface contracts), NaN/Inf quoting, nil/no-op sub-encoder fallbacks, namespace bookkeeping (ghost base stack; AppendObject saves/zeroes/restores the count and always writes the closing brace, also when the marshaler failed), closeOpenNamespaces loop, Clone/clone/newJSONEncoder (fragment invariant), Field.AddTo / addFields / encodeStringer / encodeError (incl. the recovered-panic paths) and zap's own array/object marshalers against the marshaler interface contracts; full frames (no other encoder, buffer or pre-existing byte changes).",
+   note=BASE_NOTE + "Assumed: strconv appends one scalar token (finite floats) and safe ASCII for NaN/Inf; time.AppendFormat output is string-safe when the layout is; utf8.DecodeRune(InString) contract; encodeReflected (encoding/json or a user ReflectedEncoder) returns one complete JSON value - trusted, not verified; user marshalers/sub-encoders reach the encoder only through its interface methods (encapsulation rely) and append at most one value; fields are well-typed (built by zap's constructors); the T-JSON fold laws and chunk lemmas are trusted axioms (single-step lemmas json_sep_step, json_no_control discharged). Token-internal number syntax and UTF-8 validity are carried by the assumed strconv/utf8 contracts. Generic marshalers without an instance in the program (objects[T], objectValues, stringers[T]) are not verified.",
+   ref="7 (C01)"),
+ "C04": dict(
+   text="Proof of the sequential mechanisms the property's anchors name, each for all inputs: EncodeEntry returns a fresh, exclusively owned buffer and leaves the shared encoder, its buffer and every pre-existing byte unwritten (per-call private clone and buffer); ioCore.Write hands the sink exactly one Write carrying the whole encoded line and frees the buffer only after that Write returned; lockedWriteSyncer holds its mutex around the inner Write/Sync and releases it on every path; BufferedWriteSyncer.Write buffers whole writes under its mutex (bufio split-freedom precondition); every branch of a tee (Check, Write, Sync) and every core of a CheckedEntry is visited exactly once, in order, regardless of earlier errors.",
+   note=BASE_NOTE + "The property's quantifier is over schedules; govc has no interleaving semantics. 'Exactly one intact line per entry for all interleavings' follows from these per-call facts only through the (unmechanised) lock-invariant soundness argument; per-goroutine order at the sink, concurrent Sync/flush ticks and real files are outside.",
+   ref="7 (C04)"),
+ "C08": dict(
+   text="Proof of the pool discipline (sequential): putJSONEncoder resets every field of the encoder before Put (the pool's Put requires the all-zero 'clean' state, Get returns it, so clone starts from a clean object); buffer.Pool.Get returns an empty buffer (reset on Get); getCheckedEntry/reset clear entry, error output, dirty flag, hook and cores; the error-array wrappers are cleared before Put on every path (zapcore.errArrayElem.Free, zap.errArray); Stack.Free clears pcs/frames; EncodeEntry's result is a function of the receiver's context bytes, the entry and the fields only (its contract mentions no pool state) and the buffer it returns is not referenced by the encoder any more; FullPath/TrimmedPath hand their scratch buffer back before returning and change no pre-existing byte.",
+   note=BASE_NOTE + "sync.Pool is modelled as 'Get returns an object nobody else holds, in the state the last Put (or New) left it'; New functions of the pools are trivial literals (not verified). The console encoder's slice-encoder pool and concurrent histories are not covered.",
+   ref="7 (C08)"),
+ "C10": dict(
+   text="Proof: Field.AddTo never panics for well-typed fields and leaves the JSON encoder well-formed in every case; a failing marshaler / Stringer / error / reflected value costs at most one extra '<key>Error' string member written after the field's own encoder call, and addFields calls AddTo exactly once per field whatever earlier ones did; encodeStringer/encodeError contain a panicking or nil String()/Error() (the path on which the callee panics is explored: the deferred function recovers, logs '<nil>' or reports PANIC=..., the function returns normally); AppendArray/AppendObject write the closing bracket also when the marshaler failed, AddReflected writes nothing when encoding failed; error arrays skip nil elements and free every wrapper; CheckedEntry.Write, multiCore.Write/Sync, multiWriteSyncer.Write/Sync and hooked.Write visit every core/sink/hook exactly once and fold all errors; ioCore.Write returns encoder or sink errors and frees the buffer on the sink-error path too.",
+   note=BASE_NOTE + "User String()/Error()/MarshalLog* are arbitrary under the interface contracts (may panic / return errors); Error() of an error RETURNED by a marshaler is called outside a recover (a panic there propagates - not in the property's fault list, stated as an assumption); stringers[T] (zap.Stringers) calls String() bare and is not verified (no instance in the program).",
+   ref="7 (C10)"),
  "C07": dict(
-   text="Proof of the derivation mechanisms with full frames: Logger.clone/With/Named/WithOptions/Sugar/Desugar write only the freshly allocated clone (*log == old(*log)), With(no fields) returns the receiver, Named joins with a dot exactly when both names are non-empty; Logger.check stamps the entry with the logger's own name and hands call-site fields on unchanged; every zap Core.With implementation under contract (tee, sampler, hooked, level-filter, lazy, observer) is verified against the Core.With interface contract (result non-nil, no pre-existing Field, Core slice or byte array written), forwards exactly the given fields to the wrapped core and re-wraps it leaving the receiver unchanged; the observer's capacity-capped append leaves the parent's context array untouched (both append branches explored); the lazy core evaluates its With exactly once (sync.Once model) with the original fields.",
-   note=BASE_NOTE + "ioCore.With (encoder Clone + addFields), Logger.WithLazy's option closure and the sugared With/Named/WithLazy wrappers are not yet under contract; the byte-level statement 'context bytes = parent bytes ++ enc(fields)' is part of the C01/C02 encoder contracts, not proved here. 'All orders of derivation and use' follows from the frames (no derivation writes a location reachable from another logger) - a paper step over the proved frames.",
+   text="Proof of the derivation mechanisms with full frames: Logger.clone/With/Named/WithOptions/Sugar/Desugar write only the freshly allocated clone (*log == old(*log)), With(no fields) returns the receiver, Named joins with a dot exactly when both names are non-empty; Logger.check stamps the entry with the logger's own name and hands call-site fields on unchanged; every zap Core.With implementation (ioCore with the JSON encoder: a clone of the encoder with its own buffer gets exactly the new fields, the receiver's encoder and every pre-existing byte untouched; tee, sampler, hooked, level-filter, lazy, observer) is verified against the Core.With interface contract (result non-nil, no pre-existing Field, Core slice or byte array written), forwards exactly the given fields to the wrapped core and re-wraps it leaving the receiver unchanged; the observer's capacity-capped append leaves the parent's context array untouched (both append branches explored); the lazy core evaluates its With exactly once (sync.Once model) with the original fields.",
+   note=BASE_NOTE + "ioCore.With over the console encoder, Logger.WithLazy's option closure and the sugared With/Named/WithLazy wrappers are not yet under contract; the byte-level statement 'context bytes = parent bytes ++ enc(fields)' is part of the C01/C02 encoder contracts, not proved here. 'All orders of derivation and use' follows from the frames (no derivation writes a location reachable from another logger) - a paper step over the proved frames.",
    ref="7 (C07)"),
  "C09": dict(
    text="Proof of the synchronisation discipline, per function, on every path: guarded-by obligations at every load/store of _globalL/_globalS (under _globalMu), sinkRegistry.factories and _encoderNameToConstructor (under their mutexes), ObservedLogs.logs, BufferedWriteSyncer.{initialized,stopped,writer}; a coverage scan fails the check if any zap function touching a guarded location is not under contract; lock balance (Lock requires not held, Unlock requires held, released at every return incl. deferred unlocks); no blocking channel operation while BufferedWriteSyncer.mu is held (Stop, flushLoop); stop channel closed at most once (stopped <=> closed(stop)); lazyWithCore.core is stored only inside the Once.Do function and loaded only after the Once completed on the same path; Enabled reads only the immutable originalCore; no-panic (nil, index, type-assertion, close safety) for all these functions.",
